@@ -30,8 +30,10 @@ Statement notes.
    exception of `Cache.set` (unbindable key, unencodable text) and changes nothing;
    `update` stops at the first assignment that raises (the pairs before it stay
    assigned); `popitem` whose `del _cache[key]` does not find the key read back
-   raises KeyError and rolls its block back.  `OSpec.setitem` / `OSpec.update`
-   raise the same exceptions; `OSpec.popitem` knows nothing about codecs, so
+   raises KeyError and rolls its block back; `setdefault` whose `add` raises
+   (unstorable default, unbindable key) propagates that exception and rolls its
+   block back.  `OSpec.setitem` / `OSpec.update` / `OSpec.setdefault` raise the
+   same exceptions; `OSpec.popitem` knows nothing about codecs, so
    `hcodec` stays (`popitem_irefines_needs_codec`: without it the model raises
    KeyError where the dictionary removes the item).  `*_propagates_error` below
    are concrete instances.
@@ -374,9 +376,11 @@ theorem step_keys (m : ODict) (cfg : Cfg) (op : IOp) :
       · exact .inl hK
       · split at hK
         · exact .inl hK
-        · rcases setitem_keys m E cfg k v K hK with h | h
-          · exact .inl h
-          · exact .inr ⟨E, k, rfl, h⟩
+        · split at hK
+          · exact .inl hK
+          · rcases setitem_keys m E cfg k v K hK with h | h
+            · exact .inl h
+            · exact .inr ⟨E, k, rfl, h⟩
     · exact .inl hK
   | pop E now k d => exact .inl (del_keys m _ K hK)
   | popitem E now last =>
@@ -739,6 +743,31 @@ theorem popitem_propagates_error :
     (exIx.popitem Cache.exE 0 true).1.cache.rows = exIx.cache.rows ∧
     (exIx.popitem Cache.exE 0 true).1.cache.depth = 0 ∧
     (exIx.popitem Cache.exE 0 true).1.cache.snap.isNone = true := by
+  decide +kernel
+
+/-- `index.setdefault('b', '\ud800')` on an Index holding `a`: the key is missing, `add` cannot
+store the default (text with a lone surrogate) — UnicodeEncodeError propagates out of the block,
+which is rolled back (rows unchanged, no transaction left open, no snapshot); the dictionary call
+raises the same exception and is unchanged.  A key that cannot be bound raises likewise.  On the
+present key `a` the value is returned and nothing raises, whatever the default. -/
+theorem setdefault_propagates_error :
+    let x := (exIndex.setitem exEI 0 (.str [97]) (.int 1)).1
+    let m := (OSpec.setitem [] exEI exIndex.cache.cfg (.str [97]) (.int 1)).1
+    (match (x.setdefault exEI 1 (.str [98]) (.str [0xD800])).2 with
+      | .exc "UnicodeEncodeError" => true | _ => false) = true ∧
+    (x.setdefault exEI 1 (.str [98]) (.str [0xD800])).1.cache.rows = x.cache.rows ∧
+    (x.setdefault exEI 1 (.str [98]) (.str [0xD800])).1.cache.depth = 0 ∧
+    (x.setdefault exEI 1 (.str [98]) (.str [0xD800])).1.cache.snap.isNone = true ∧
+    (match (OSpec.setdefault m exEI exIndex.cache.cfg (.str [98]) (.str [0xD800])).2 with
+      | .exc "UnicodeEncodeError" => true | _ => false) = true ∧
+    (OSpec.setdefault m exEI exIndex.cache.cfg (.str [98]) (.str [0xD800])).1 = m ∧
+    (match (x.setdefault exEI 1 (.str [0xD800]) (.int 2)).2 with
+      | .exc "UnicodeEncodeError" => true | _ => false) = true ∧
+    (match (x.setdefault exEI 1 (.str [97]) (.str [0xD800])).2 with
+      | .val (.int 1) => true | _ => false) = true ∧
+    (x.setdefault exEI 1 (.str [97]) (.str [0xD800])).1.cache.rows = x.cache.rows ∧
+    (match (x.setdefault exEI 1 (.str [98]) (.int 2)).2 with | .val (.int 2) => true | _ => false) = true ∧
+    (x.setdefault exEI 1 (.str [98]) (.int 2)).1.cache.rows.length = 2 := by
   decide +kernel
 
 end DC.Index
